@@ -18,6 +18,7 @@ ASSUMPTIONS = ["an int operand counts with its bit length (Bits(int) semantics)"
                "sign extension of the empty vector is not generated"]
 SELFTESTS = [("bitsmodel", M.selftest)]
 
+INPLACE = {"+": operator.iadd, "-": operator.isub, "&": operator.iand, "|": operator.ior, "^": operator.ixor}
 BIN = {"+": operator.add, "-": operator.sub, "&": operator.and_, "|": operator.or_, "^": operator.xor}
 
 
@@ -64,6 +65,13 @@ def check_op(c):
         is_vec(A, a, tag + ":operand-changed")
         if isinstance(B, Bits):
             is_vec(B, b, tag + ":operand-changed")
+        if not c.get("rev"):
+            # the augmented form (x op= y) is the same operator: same value, right operand untouched
+            X = guard(Bits, x, m)
+            r = guard(INPLACE[op], X, B)
+            is_vec(r, exp, tag.replace(op, op + "=", 1))
+            if isinstance(B, Bits):
+                is_vec(B, b, tag.replace(op, op + "=", 1) + ":right-operand-changed")
         return
     if op in ("neg", "inv"):
         f = operator.neg if op == "neg" else operator.invert
